@@ -394,6 +394,9 @@ func genZone(rng *mrand.Rand, in input) *dohfake.Zone {
 			k.Type = anyType()
 		}
 		z.Rcode[k] = 1 + rng.IntN(5)
+		if rng.IntN(4) == 0 {
+			z.Rcode[k] = []int{16, 19, 22, 23}[rng.IntN(4)] // extended RCODEs: upper bits in the OPT record, header nibble 0, 3, 6, 7
+		}
 	}
 	if rng.IntN(2) == 0 {
 		for n := 1 + rng.IntN(4); n > 0; n-- {
@@ -796,6 +799,10 @@ func TestCheck(t *testing.T) {
 				onlyNXHTTPS = false
 				if e := rcodeErr[q.Rcode]; e != nil && errors.Is(err, e) {
 					justified = true
+				}
+				if q.Rcode > 5 {
+					justified = true // no documented error for this code: any error is the right answer
+					r.Count("extended_rcode_errors", 1)
 				}
 			}
 			switch {
